@@ -1131,6 +1131,26 @@ func hubCases() (out []mcase) {
 			return sc.finishVFund(f)
 		}})
 	}
+	// stray update responses that name the VIRTUAL channel's id (they end up in the cache of the relay of
+	// the hub's copy of the virtual channel)
+	stray := func(name string, from string, b func(id channel.ID) wire.Msg) {
+		out = append(out, mcase{Name: "hubsettle/" + name, Cat: "hubsettle", Sender: "M", Mut: true, Build: func(*mScene) wire.Msg { return nil },
+			Envs: func(sc *mScene) []*wire.Envelope {
+				if sc.realVSet == nil {
+					return nil
+				}
+				return []*wire.Envelope{{Sender: sc.id(from).Wire, Recipient: sc.V.WireID, Msg: b(sc.realVSet.Final.State.ID)}}
+			}})
+	}
+	stray("stray-rej-virtual-id", "M", func(id channel.ID) wire.Msg {
+		return &client.ChannelUpdateRejMsg{ChannelID: id, Version: 5, Reason: "x"}
+	})
+	stray("stray-acc-virtual-id", "M", func(id channel.ID) wire.Msg {
+		return &client.ChannelUpdateAccMsg{ChannelID: id, Version: 5, Sig: garbageSig()}
+	})
+	stray("stray-rej-virtual-id-from-stranger", "S", func(id channel.ID) wire.Msg {
+		return &client.ChannelUpdateRejMsg{ChannelID: id, Version: 5, Reason: "x"}
+	})
 	out = append(out, mcase{Name: "hubsettle/valid", Cat: "hubsettle", Sender: "M", Build: func(sc *mScene) wire.Msg {
 		if f := sc.hubSettleBase(); f != nil {
 			return sc.finishVSettle(f)
